@@ -506,6 +506,9 @@ class NPMixin:
                 raise Unsupported('arithmetic between a compressed selection and another array')
             full = self.deref(st, self.arr_binop(op, sel.arr if sel is A else oth, oth if sel is A else sel.arr, st, node))
             return MaskedSel(full, sel.mask)
+        if isinstance(op, ast.Mult) and isinstance(A, Tup) and len(A.items) == 1 and isinstance(self.deref(st, A.items[0]), Arr) \
+                and not isinstance(B, (Arr, Tup)) and is_sym(to_z3(b)) and z3.is_int(to_z3(b)):
+            return Tup([Opaque('repeat-rows'), A.items[0], to_z3(b)])          # [row] * n  (a list of n references to the same row)
         if isinstance(A, Arr) or isinstance(B, Arr):
             return self.arr_binop(op, A, B, st, node)
         if isinstance(a, (int, float)) and isinstance(b, (int, float)):
